@@ -332,7 +332,7 @@ def run_c05(ctx):
     pid, quick = ctx.pid, ctx.tier == "quick"
     ctx._specdir()
     ctx.build("txnoracle")
-    pool = ThreadPoolExecutor(max_workers=max(2, ctx.workers))
+    pool = ThreadPoolExecutor(max_workers=16)   # one slot per TLC run; CPU use is bounded by the -workers given to each
     gating = ["MC_txn2.cfg", "MC_txn3.cfg"]
     fut_m1 = {c: pool.submit(ctx.tlc_or_undecided, "WaterMarkImpl", c, workers=max(1, ctx.workers // 3), timeout=1800, coverage=not quick, heap="3g")
               for c in gating}
@@ -500,7 +500,7 @@ def run(ctx):
         raise Undecided("checks/watermark.py serves C32 and C05 only")
     ctx._specdir()
     ctx.build("watermark")
-    pool = ThreadPoolExecutor(max_workers=max(2, ctx.workers))
+    pool = ThreadPoolExecutor(max_workers=16)   # one slot per TLC run; CPU use is bounded by the -workers given to each
     w_m1 = max(1, ctx.workers // (3 if quick else 2))
     # ---------------------------------------------------------------- M1 (submitted; gathered below)
     gating = ["MC_serial2.cfg", "MC_witness2q.cfg"] if quick else ["MC_serial2.cfg", "MC_witness2.cfg", "MC_serial3.cfg", "MC_witness3.cfg"]
